@@ -35,6 +35,14 @@ class Infeasible(PathAbort):
     pass
 
 
+class PathTimeout(PathAbort):
+    """The code under analysis did not return on this path within the per-path wall limit (e.g. a loop of the real code
+    that never terminates on modified code).  The path is abandoned and reported as inconclusive; the worker goes on."""
+
+    def __str__(self):
+        return "the real code did not return on this path within the per-path time limit"
+
+
 class Frontier(PathAbort):
     pass
 
@@ -392,6 +400,35 @@ class Engine:
         return False
 
 
+def _arm_path_alarm(timeout_ms):
+    """per-path wall limit: max(60 s, 4 solver time-outs), or VERIF_PATH_TIMEOUT seconds; main thread of the process only"""
+    import os
+    import signal
+    import threading
+    if threading.current_thread() is not threading.main_thread():
+        return
+    limit = float(os.environ.get("VERIF_PATH_TIMEOUT", "0")) or max(60.0, 4.0 * timeout_ms / 1000.0)
+
+    def _on_alarm(signum, frame):
+        raise PathTimeout()
+    try:
+        signal.signal(signal.SIGALRM, _on_alarm)
+        signal.setitimer(signal.ITIMER_REAL, limit)
+    except (ValueError, OSError):
+        pass
+
+
+def _disarm_path_alarm():
+    import signal
+    import threading
+    if threading.current_thread() is not threading.main_thread():
+        return
+    try:
+        signal.setitimer(signal.ITIMER_REAL, 0)
+    except (ValueError, OSError):
+        pass
+
+
 def explore(fn, base=(), timeout_ms=20000, fixed_prefix=(), frontier_depth=None,
             sliced=False, max_paths=None, on_abort=None, budget=None):
     """Run fn(engine) once per feasible path.  Returns (results, stats, engine).
@@ -408,7 +445,11 @@ def explore(fn, base=(), timeout_ms=20000, fixed_prefix=(), frontier_depth=None,
             eng.begin_path()
             try:
                 try:
-                    r = fn(eng)
+                    _arm_path_alarm(timeout_ms)
+                    try:
+                        r = fn(eng)
+                    finally:
+                        _disarm_path_alarm()
                 except Exception:
                     if eng.pending is None:
                         raise
